@@ -242,8 +242,9 @@ def parse_kani(out):
             r['status'] = 'FAILED'
     if 'unwinding failures' in out:
         r['unwind_fail'] = r['unwind_fail'] or True
-    if re.search(r'Status: ERROR|CBMC failed|CBMC crashed|out of memory|std::bad_alloc|Killed', out):
-        r['error'] = True
+    m = re.search(r'(CBMC appears to have run out of memory|CBMC failed with status \d+|CBMC failed|CBMC crashed|std::bad_alloc|Status: ERROR|Killed)', out)
+    if m:
+        r['error'] = m.group(1)
     return r
 
 
@@ -262,8 +263,7 @@ def run_query(scr, h, mem_gb, timeout_scale=1.0):
         r['why'] = 'timeout after %ds' % int(h.timeout * timeout_scale)
     elif r['status'] is None or r.get('error') and r['status'] != 'SUCCESSFUL':
         r['verdict'] = 'inconclusive'
-        tail = ' | '.join(out.strip().splitlines()[-3:])
-        r['why'] = 'no verdict (rc=%s): %s' % (rc, tail[-300:])
+        r['why'] = 'no verdict (rc=%s): %s' % (rc, r.get('error') or ' | '.join(out.strip().splitlines()[-3:])[-300:])
     elif r['status'] == 'SUCCESSFUL':
         if r['covers_total'] == 0 or r['covers_sat'] != r['covers_total']:
             r['verdict'] = 'inconclusive'
@@ -292,10 +292,15 @@ def extract_playback(scr, h, mem_gb):
     log = os.path.join(scr.logs, h.name + '.playback.log')
     cmd = kani_cmd(h, tgt, '-Z concrete-playback --concrete-playback=print').replace('--output-format terse', '')
     rc, out, dt, to = sh(cmd, cwd=scr.repo, timeout=max(1800, h.timeout * 8), limit_gb=mem_gb, log=log)
-    m = RE_TEST.search(out)
-    if not m:
+    # Kani prints one playback test per FAILED check and one per SATISFIED cover (in no fixed order):
+    # keep them all; the replay runs every one of them and reproduces if any of them panics.
+    ms = RE_TEST.findall(out)
+    if not ms:
         return None, None, dt
-    return m.group(1), m.group(2), dt
+    uniq = {}
+    for src, name in ms:
+        uniq.setdefault(name, src)      # identical value vectors get identical names
+    return '\n\n'.join(uniq.values()), 'kani_concrete_playback_' + h.name + '_', dt
 
 
 def native_replay(scr, h, test_src, test_name, profile_release=False):
@@ -307,7 +312,7 @@ def native_replay(scr, h, test_src, test_name, profile_release=False):
     sub = h.ann.get('_mod', '')
     # the generated test uses Vec / vec!, which are not in scope in no_std crates
     test_src = re.sub(r'(fn\s+kani_concrete_playback_\w+\s*\(\)\s*\{)',
-                      r'\1\n    extern crate std;\n    #[allow(unused_imports)]\n    use std::{vec, vec::Vec};', test_src, count=1)
+                      r'\1\n    extern crate std;\n    #[allow(unused_imports)]\n    use std::{vec, vec::Vec};', test_src)
     try:
         if sub:
             # harness lives in an inline module that closes at the end of the file: put the test inside it
@@ -317,7 +322,8 @@ def native_replay(scr, h, test_src, test_name, profile_release=False):
             open(hook, 'w').write(orig + '\n' + test_src + '\n')
         feat = ('--features ' + h.features) if h.features else ''
         rel_flag = '--release' if profile_release else ''
-        cmd = ('cargo kani playback -Z concrete-playback -p %s %s %s -- %s --exact --nocapture'
+        # test_name is the common prefix of all generated tests of this harness (no --exact)
+        cmd = ('cargo kani playback -Z concrete-playback -p %s %s %s -- %s --nocapture'
                % (h.package, feat, rel_flag, h.full.rsplit('::', 1)[0] + '::' + test_name))
         log = os.path.join(scr.logs, h.name + ('.replay-release.log' if profile_release else '.replay.log'))
         rc, out, dt, to = sh(cmd, cwd=scr.repo, timeout=1800, log=log)
@@ -325,9 +331,9 @@ def native_replay(scr, h, test_src, test_name, profile_release=False):
         open(hook, 'w').write(orig)
     if to:
         return 'error', 'native replay timed out'
-    if re.search(r'test result: FAILED|panicked at', out) and re.search(r'running 1 test', out):
+    if re.search(r'test result: FAILED|panicked at', out) and re.search(r'running [1-9]\d* tests?', out):
         return 'reproduced', out
-    if re.search(r'test result: ok\. 1 passed', out):
+    if re.search(r'test result: ok\. [1-9]\d* passed', out):
         return 'passed', out
     return 'error', out
 
